@@ -47,6 +47,7 @@ func buildProperties() []Property {
 				{"R-COMPARE-MATRIX", 100, ruleCompareMatrix},
 				{"R-STABLE-KEYSORT", 1, ruleStableKeysort},
 				{"R-SET-ORDER", 4, ruleSetOrder},
+				{"R-COMPOUND-ORDER", 5, ruleCompoundOrder},
 				{"R-COMPOUND-UNIFORM", 7, ruleCompoundUniform},
 			},
 		},
@@ -135,6 +136,7 @@ func buildProperties() []Property {
 				{"R-PARAM-THREAD", 6, ruleParamThread(threadRowsFor("exec"))},
 				{"R-ENUM-TOTAL", 15, ruleEnumTotal},
 				{"R-CUT-PARENT", 1, ruleCutParent},
+				{"R-FRESH-VARS", 1, ruleFreshVars},
 				{"R-GLOBAL-ESCAPE", 10, ruleGlobalEscape},
 			},
 		},
@@ -146,6 +148,7 @@ func buildProperties() []Property {
 				{"R-CUT-WRITERS", 4, ruleCutWriters},
 				{"R-CUT-PARENT", 1, ruleCutParent},
 				{"R-CUT-LOCAL", 4, ruleCutLocal},
+				{"R-POP-INCLUSIVE", 2, rulePopInclusive},
 				{"R-PARAM-THREAD", 6, ruleParamThread(threadRowsFor("exec"))},
 			},
 		},
